@@ -48,7 +48,8 @@ const (
 	classMustExpand  = "mustexpand-nil"           // TemplatedRegexp.MustExpand returns nil when expansion against rule data fails
 	classLinkRewrite = "link-rewrite-nil-request" // rule/link: http.NewRequest error ignored after uri rewrite
 	classFailoverURI = "failover-uri-unparsed"    // promapi doRequest: url.Parse error ignored for (unvalidated) failover / discovery URIs
-	classLabelNoMap  = "label-recording-no-labels" // rule/label on a recording rule without labels inside a group with labels
+	classLabelNoMap  = "label-recording-no-labels" // rule/label on a recording rule without labels inside a group with labels (fixed in 86fbdcd)
+	classRangeMax    = "range-query-empty-max"     // range_query { max = "" } passes validation; RangeQueryCheck.String() then dereferences a nil server
 )
 
 type FileCase struct {
@@ -370,6 +371,8 @@ func knownClass(c Case, out outcome) string {
 	case strings.Contains(st, "checks.LabelCheck.checkRecordingRule") && strings.Contains(st, "nil pointer dereference") &&
 		!strings.Contains(st, "regexp.(*Regexp).") && strings.Contains(c.HCL, "label "):
 		return classLabelNoMap
+	case strings.Contains(st, "checks.RangeQueryCheck.String") && strings.Contains(st, "nil pointer dereference") && strings.Contains(c.HCL, "range_query"):
+		return classRangeMax
 	}
 	return ""
 }
@@ -401,6 +404,7 @@ func genCase(t *rapid.T, rec *vstat.Recorder, known map[string]string, forceBin 
 		NoRawSubst:       excluded(classMustExpand, known),
 		NoBadLinkRewrite: excluded(classLinkRewrite, known),
 		NoBadFailover:    excluded(classFailoverURI, known),
+		NoEmptyRangeMax:  excluded(classRangeMax, known),
 	}
 	cfg := pintcfg.Gen(t, o)
 	doc := pintcfg.GenHostileDoc(t)
@@ -431,7 +435,7 @@ func genCase(t *rapid.T, rec *vstat.Recorder, known map[string]string, forceBin 
 			c.Tags = append(c.Tags, tag)
 		}
 	}
-	for _, k := range []string{"NoRawSubst", "NoBadLinkRewrite", "NoBadFailover"} {
+	for _, k := range []string{"NoRawSubst", "NoBadLinkRewrite", "NoBadFailover", "NoEmptyRangeMax"} {
 		if n := cfg.Excluded[k]; n > 0 {
 			rec.Count("excluded_by_construction:"+k, int64(n))
 		}
